@@ -108,7 +108,24 @@ pub struct Scenario {
     pub seam: String,
     pub visualize: bool,
     /// None: fault on the very first run; Some(edit): generate, apply edit, fault on the next run
+    /// ("@none": generate, no edit)
     pub pre_edit: Option<String>,
+    /// the faulty run is a forced one (--force on the CLI, force: true in the file on the build
+    /// path); the recovery runs are plain
+    #[serde(default)]
+    pub forced: bool,
+}
+
+impl Scenario {
+    fn faulty_opts(&self) -> RunOpts {
+        RunOpts { force_flag: self.forced && self.seam == "cli", ..Default::default() }
+    }
+    /// configuration file for the faulty run / for every other run
+    fn write_cfg(&self, root: &Path, cfg: &FileCfg, faulty: bool) {
+        let mut c = cfg.clone();
+        c.force = if faulty && self.forced && self.seam != "cli" { Some(true) } else { None };
+        std::fs::write(root.join("typegen.json"), c.to_json()).unwrap();
+    }
 }
 
 #[derive(Debug, Clone, Serialize, Deserialize)]
@@ -138,10 +155,12 @@ fn prepare(sc: &Scenario, root: &Path) -> Option<(Project, Project, FileCfg)> {
         if !r.success() {
             return None;
         }
-        let alphabet: Vec<Edit> = projects::edits_for(&sc.base);
-        let e = alphabet.iter().find(|e| &e.name == name)?;
-        current = e.apply(&base).ok()?;
-        sbx::write_sources(root, &current, &cfg);
+        if name != "@none" {
+            let alphabet: Vec<Edit> = projects::edits_for(&sc.base);
+            let e = alphabet.iter().find(|e| &e.name == name)?;
+            current = e.apply(&base).ok()?;
+            sbx::write_sources(root, &current, &cfg);
+        }
     }
     Some((base, current, cfg))
 }
@@ -157,9 +176,10 @@ fn strace_args(log: &Path, inject: Option<String>) -> Vec<String> {
 
 pub fn record(sc: &Scenario) -> Option<Vec<Event>> {
     let sb = run::Sandbox::new();
-    prepare(sc, &sb.root)?;
+    let (_, _, cfg) = prepare(sc, &sb.root)?;
+    sc.write_cfg(&sb.root, &cfg, true);
     let log = sb.path("strace.log");
-    let r = sbx::run_generate(&sb.root, seam_of(&sc.seam), &RunOpts { strace: Some(strace_args(&log, None)), ..Default::default() });
+    let r = sbx::run_generate(&sb.root, seam_of(&sc.seam), &RunOpts { strace: Some(strace_args(&log, None)), ..sc.faulty_opts() });
     if !r.success() {
         return None;
     }
@@ -181,11 +201,13 @@ pub fn eval_fault(fc: &FaultCase) -> FaultOutcome {
         return FaultOutcome { fired: false, violations: vec![], outcome: "prepare-failed".into() };
     };
     let log = sb.path("strace.log");
+    sc.write_cfg(&sb.root, &cfg, true);
     let r = sbx::run_generate(
         &sb.root,
         seam,
-        &RunOpts { strace: Some(strace_args(&log, Some(fc.fault.inject(&fc.event.syscall, fc.event.index)))), ..Default::default() },
+        &RunOpts { strace: Some(strace_args(&log, Some(fc.fault.inject(&fc.event.syscall, fc.event.index)))), ..sc.faulty_opts() },
     );
+    sc.write_cfg(&sb.root, &cfg, false);
     let text = std::fs::read_to_string(&log).unwrap_or_default();
     let _ = std::fs::remove_file(&log);
     // did the fault hit the planned call?
@@ -206,6 +228,7 @@ pub fn eval_fault(fc: &FaultCase) -> FaultOutcome {
     let mk = |class: &str, detail: String| {
         Violation::new("C17", class, detail, serde_json::to_value(fc).unwrap())
             .field("scenario", sc.pre_edit.clone().map(|e| format!("after-edit:{}", e)).unwrap_or("first-run".into()))
+            .field("forced", sc.forced.to_string())
             .field("fault", format!("{:?}", fc.fault))
             .field("target", format!("{}:{}", fc.event.syscall, fc.event.file))
             .field("recovery", fc.recovery.clone())
@@ -223,6 +246,7 @@ pub fn eval_fault(fc: &FaultCase) -> FaultOutcome {
     // recovery suffix
     let target_project = if fc.recovery == "revert" {
         sbx::write_sources(&sb.root, &base, &cfg);
+        sc.write_cfg(&sb.root, &cfg, false);
         base.clone()
     } else {
         current.clone()
@@ -342,13 +366,18 @@ pub fn run(tier: Tier) -> CheckResult {
                     if tier == Tier::Quick && visualize && zod {
                         continue;
                     }
-                    scenarios.push(Scenario { base: base.to_string(), zod, seam: seam.into(), visualize, pre_edit: None });
+                    scenarios.push(Scenario { base: base.to_string(), zod, seam: seam.into(), visualize, pre_edit: None, forced: false });
                     if *base == "b0" {
                         for e in &edits {
-                            scenarios.push(Scenario { base: base.to_string(), zod, seam: seam.into(), visualize, pre_edit: Some(e.to_string()) });
+                            scenarios.push(Scenario { base: base.to_string(), zod, seam: seam.into(), visualize, pre_edit: Some(e.to_string()), forced: false });
+                        }
+                        // forced faulty runs over a valid cache: after no edit, and after an edit
+                        if !visualize {
+                            scenarios.push(Scenario { base: base.to_string(), zod, seam: seam.into(), visualize, pre_edit: Some("@none".into()), forced: true });
+                            scenarios.push(Scenario { base: base.to_string(), zod, seam: seam.into(), visualize, pre_edit: Some(edits[0].to_string()), forced: true });
                         }
                     } else {
-                        scenarios.push(Scenario { base: base.to_string(), zod, seam: seam.into(), visualize, pre_edit: Some("param_type".into()) });
+                        scenarios.push(Scenario { base: base.to_string(), zod, seam: seam.into(), visualize, pre_edit: Some("param_type".into()), forced: false });
                     }
                 }
             }
@@ -436,7 +465,7 @@ pub fn run(tier: Tier) -> CheckResult {
     res.coverage.set("not_fired", json!(outcomes.iter().filter(|o| o.starts_with("not-fired")).collect::<Vec<_>>()));
     res.coverage.set("exhaustive", exhaustive);
     res.coverage.set("samples", json!(cases.iter().step_by((cases.len() / 4).max(1)).take(4).collect::<Vec<_>>()));
-    res.coverage.set("rule", "for each scenario (base project x mode x seam x visualisation x {first run, run after an output-changing edit}) a recording run under strace lists every openat/write the main thread issues on files of the output directory; for EVERY such call and every fault kind (errno injection, SIGKILL on entry - a SIGKILL at the write leaves the file truncated by the preceding open) one faulty run of the real binary/build path, followed by the recovery suffix (plain non-forced run; or revert the edit then run); oracles: non-zero exit when a binding/graph write failed, recovery run succeeds and the output equals a fresh forced generation. A faulty run is non-trivial when strace confirms the fault hit the planned call.");
+    res.coverage.set("rule", "for each scenario (base project x mode x seam x visualisation x {first run, run after an output-changing edit, FORCED run over a valid cache with and without a preceding edit}) a recording run under strace lists every openat/write the main thread issues on files of the output directory; for EVERY such call and every fault kind (errno injection, SIGKILL on entry - a SIGKILL at the write leaves the file truncated by the preceding open) one faulty run of the real binary/build path, followed by the recovery suffix (plain non-forced run; or revert the edit then run); oracles: non-zero exit when a binding/graph write failed, recovery run succeeds and the output equals a fresh forced generation. A faulty run is non-trivial when strace confirms the fault hit the planned call.");
     res.assumptions = vec![
         "fs::write issues one write(2) per file here; short writes are out of scope".into(),
         "strace per-thread syscall counting is stable between the recording run and the faulty run (verified per run through the INJECTED marker)".into(),
